@@ -210,6 +210,91 @@ func layoutUnits(sameNamedTypes bool) []scen.Unit {
 	return []scen.Unit{{Controllers: []scen.Controller{a, b, c}, Decls: decls, Imports: map[string][]string{"p": imports, "q": imports}}}
 }
 
+// inProcessHistories: one long-lived process generating routes several times with different configurations (as a
+// library user or a watch mode would). Every generation must produce what a fresh process produces for that
+// configuration - nothing of an earlier configuration may linger in package-level state.
+func inProcessHistories(run *core.Run, scratch string, p proj, tier string) {
+	dir := filepath.Join(scratch, "inproc")
+	pp := *p.P
+	pp.Files = map[string]string{}
+	for k, v := range p.P.Files {
+		pp.Files[k] = v
+	}
+	pp.Files["ext/register.hbs"] = "// EXTENSION-A register routes\n"
+	pp.Files["ext/imports.hbs"] = "// EXTENSION-B imports\n"
+	pp.Files["ext/routestart.hbs"] = "// OVERRIDDEN-AS-EXTENSION route start\n"
+	if err := pp.Write(dir); err != nil {
+		core.Harness("cannot write project: %v", err)
+	}
+	letters := []scen.RoutesJob{
+		{Key: "gin-plain", Engine: "gin"},
+		{Key: "gin-ext-register", Engine: "gin", Extensions: map[string]string{"RegisterRoutesExtension": "./ext/register.hbs"}},
+		{Key: "gin-ext-imports+routestart", Engine: "gin", Extensions: map[string]string{"ImportsExtension": "./ext/imports.hbs", "RouteStartRoutesExtension": "./ext/routestart.hbs"}},
+		{Key: "gin-switches-on", Engine: "gin", EnumVal: true, TopEnum: true, RespVal: true},
+		{Key: "echo-plain", Engine: "echo"},
+	}
+	depth := 3
+	if tier == "thorough" {
+		depth = 4
+	}
+	mk := func(seq []int) scen.Job {
+		j := scen.Job{Dir: dir, Config: "./gleece.config.json", Timeout: 300}
+		for i, li := range seq {
+			rj := letters[li]
+			rj.Key = fmt.Sprintf("%d:%s", i, rj.Key)
+			rj.Out = fmt.Sprintf("./dist/h/step%d/gleece.routes.go", i)
+			j.Routes = append(j.Routes, rj)
+		}
+		return j
+	}
+	fresh := make([]string, len(letters))
+	for i := range letters {
+		r := scen.RunJob(mk([]int{i}))
+		a := r.Routes[fmt.Sprintf("0:%s", letters[i].Key)]
+		if r.Crashed != "" || a.Err != "" || a.Panic != "" || a.Content == "" {
+			core.Harness("in-process histories: configuration %s does not generate in a fresh process: %s %s %s", letters[i].Key, r.Crashed, a.Err, a.Panic)
+		}
+		fresh[i] = a.Content
+	}
+	var seqs [][]int
+	var rec func(cur []int)
+	rec = func(cur []int) {
+		if len(cur) == depth {
+			seqs = append(seqs, append([]int(nil), cur...))
+			return
+		}
+		for i := range letters {
+			rec(append(cur, i))
+		}
+	}
+	rec(nil)
+	results := make([]*scen.Result, len(seqs))
+	scen.Pool(0, len(seqs), func(i int) { results[i] = scen.RunJob(mk(seqs[i])) })
+	for si, seq := range seqs {
+		r := results[si]
+		run.AddStates(1)
+		var names []string
+		for _, li := range seq {
+			names = append(names, letters[li].Key)
+		}
+		for i, li := range seq {
+			run.AddTransitions(1)
+			run.AddValidated(1)
+			a := r.Routes[fmt.Sprintf("%d:%s", i, letters[li].Key)]
+			feat := map[string]string{"family": "in-process-history", "step": letters[li].Key, "position": fmt.Sprint(i)}
+			cs := map[string]any{"project": p.Name, "history": names, "choices": map[string]int{}}
+			switch {
+			case r.Crashed != "" || a.Err != "" || a.Panic != "":
+				run.Report(core.Violation{Oracle: "in-process-generation-equals-fresh-process", Features: feat, What: fmt.Sprintf("history %v: step %d (%s) failed although the same configuration generates in a fresh process: %s %s %s", names, i, letters[li].Key, r.Crashed, a.Err, a.Panic), Case: cs})
+			case a.Content != fresh[li]:
+				run.Report(core.Violation{Oracle: "in-process-generation-equals-fresh-process", Features: feat, What: fmt.Sprintf("history %v: the routes file of step %d (%s) differs from what a fresh process writes for that configuration: %s", names, i, letters[li].Key, diffLines(fresh[li], a.Content)), Case: cs})
+			}
+		}
+	}
+	run.Set("in_process_histories", len(seqs))
+	os.RemoveAll(dir)
+}
+
 var dateLine = regexp.MustCompile(`^\s*(//\s*)?Generated Date: \d{4}-\d{2}-\d{2}\s*$`)
 
 // linesOnlyIn returns the lines of a (as a multiset) that b does not have.
@@ -286,6 +371,9 @@ func Main(tier, replay string) {
 				replayChoices[ki] = int(val.(float64))
 			}
 		}
+	}
+	if replay == "" {
+		inProcessHistories(run, scratch, projects[0], tier)
 	}
 	specByProject := map[string]string{}
 	for pi, p := range projects {
@@ -499,7 +587,7 @@ func Main(tier, replay string) {
 		}
 	}
 	run.Sample(map[string]any{"project": projects[0].Name, "choices": map[string]int{"0": 1}, "meaning": "first choice point returns its 2nd permutation, all others canonical"})
-	run.Bound = fmt.Sprintf("%d projects (3 controllers over 2 packages and 3 files, types from 2 further packages; glob order reversed; same-named types%s); every permutation at every hooked choice point with <= %d points deviating from canonical order; %s runs of the unhooked binary per project", len(projects), map[string]string{"quick": "", "thorough": "; 2 more engines"}[tier], bound, map[string]string{"quick": "6", "thorough": "20"}[tier])
+	run.Bound = fmt.Sprintf("%d projects (3 controllers over 2 packages and 3 files, types from 2 further packages; glob order reversed; same-named types%s); every permutation at every hooked choice point with <= %d points deviating from canonical order; %s runs of the unhooked binary per project; every sequence of %d route generations over 5 configurations (plain, two template-extension sets, all switches on, another engine) in one process, each step compared with a fresh process", len(projects), map[string]string{"quick": "", "thorough": "; 2 more engines"}[tier], bound, map[string]string{"quick": "6", "thorough": "20"}[tier], map[string]int{"quick": 3, "thorough": 4}[tier])
 	run.Rule = "state = one execution of the real CLI in a fresh process under a vector of iteration-order choices; transition = one such execution; validated = byte comparisons of spec and routes files with the canonical execution (plus repeated unhooked executions and cross-engine spec comparison)"
 	run.Assumptions = []string{"Go's map iteration order is over-approximated by all permutations, at the four hooked sites only; unhooked sources are only detected if they vary during the run", "generation date comment is skipped by configuration, except for one dated run per project that must differ by exactly that comment line"}
 	os.RemoveAll(scratch)
